@@ -257,7 +257,15 @@ class NetStore:
         t = self.t
         ctx = a["context"]
         kt = int(ctx.core_key_type)
-        key = self.netkey if kt == int(t.SecurityManagerKeyType.NETWORK) else self.prekey if kt == int(t.SecurityManagerKeyType.TC_LINK) else Z16
+        # the security-manager context selects the key as in EmberZNet: network key index 0 = current key, 1 = alternate key (none set);
+        # only network 0 exists; a derived key type or a flag asks for something else than the stored key
+        plain = (int(ctx.multi_network_index) == 0 and int(ctx.derived_type) == 0 and int(ctx.flags) == 0)
+        if kt == int(t.SecurityManagerKeyType.NETWORK):
+            key = self.netkey if (plain and int(ctx.key_index) == 0) else Z16
+        elif kt == int(t.SecurityManagerKeyType.TC_LINK):
+            key = self.prekey if plain else Z16
+        else:
+            key = Z16
         rx = self.ncp.cmds["exportKey"][2]
         if list(rx.keys())[0] == "status":
             return [t.sl_Status.OK, t.KeyData(key), ctx]
